@@ -41,7 +41,8 @@ def sep(ra1, dec1, ra2, dec2):
 def meta_case(draw):
     edges = [0.1, 0.5, 1.0]
     theta = draw(gen.loguniform(1e-3, 0.2))
-    scene = draw(gen.scene_case(theta, edges, 1, max_patches=6, max_per_patch=6))
+    many = draw(st.sampled_from([False, False, True]))  # two-digit patch ids (string vs numeric order)
+    scene = draw(gen.scene_case(theta, edges, 1, min_patches=10 if many else 1, max_patches=14 if many else 6, max_per_patch=3 if many else 6))
     K = len(scene["centers"])
     mode = draw(st.sampled_from(["centers", "centers", "ids", "num"]))
     perm = draw(st.permutations(list(range(K))))
@@ -65,7 +66,7 @@ def run_meta(case):
     if s.margin.min() < 1e-12:
         return Result.discard("equidistant-object")
     ra_sorted = bool(np.all(np.diff(centers[:, 0]) >= 0))
-    ck = Checker(K >= 3 and not ra_sorted, classes=[f"mode:{case['mode']}", f"patches:{K}"])
+    ck = Checker(K >= 3 and not ra_sorted, classes=[f"mode:{case['mode']}", f"patches:{K if K < 10 else '>=10'}"])
     n = s.n
     w = s.w
     rec = np.column_stack([np.asarray(cat["ra"]), np.asarray(cat["dec"])])
